@@ -121,6 +121,50 @@ def foreign_strings(conv: bool, more: bool) -> list:
     return [(cp, x) for x, cp in out.items()]
 
 
+# The conversion switch per CELL: text_convert given as a full matrix over a single-segment body.
+CELLCONV_PATTERNS = ("row0-on-rest-off", "row0-off-rest-on", "alternating-rows", "alternating-columns", "checkerboard")
+CELLCONV_ROWS = 16
+# token-bearing texts (backslash-free): in a conversion-off cell they must be read back verbatim
+TOKEN_TEXTS = [">=", "<=", "x^2", "a_b", "AUC_0-t >= 5", "p<=0.05", "a^b_c", "x_1^2>=0", "^_", "_^", ">=<=", "a_", "^b", "<= >=",
+               "\u00e9_1", "\u0394^2", "\U0001F600>=\u20ac", "x_\u00e9", "n<=\u20ac5", "\u00b1^\u00b1_\u00b1"]
+
+
+def cellconv_flag(pattern: str, i: int, j: int) -> bool:
+    """flag of body cell (row i, column j); column 0 is the tag column"""
+    if pattern == "row0-on-rest-off":
+        return i == 0
+    if pattern == "row0-off-rest-on":
+        return i != 0
+    if pattern == "alternating-rows":
+        return i % 2 == 0
+    if pattern == "alternating-columns":
+        return j % 2 == 0
+    if pattern == "checkerboard":
+        return (i + j) % 2 == 0
+    raise ValueError(pattern)
+
+
+def cellconv_slots(pattern: str, fill: int):
+    """-> (matrix, [(cp, string, flag)] in slot order).  Conversion-off cells take the token-bearing texts and every
+    boundary code point (whole and inner form) of the conversion-off space, conversion-on cells the boundary code points
+    of the conversion-on space; each list is walked cyclically."""
+    off = ([(max(ord(c) for c in t), t) for t in TOKEN_TEXTS]
+           + [(cp, slot_string(cp, form, fill)) for form in ("whole", "inner") for cp in BOUNDARY if in_space(cp, False)])
+    on = [(cp, slot_string(cp, form, fill)) for form in ("whole", "inner") for cp in BOUNDARY if in_space(cp, True)]
+    matrix = [[cellconv_flag(pattern, i, j) for j in range(K_BODY + 1)] for i in range(CELLCONV_ROWS)]
+    slots, k_on, k_off = [], 0, 0
+    for i in range(CELLCONV_ROWS):
+        for j in range(1, K_BODY + 1):
+            if matrix[i][j]:
+                cp, t = on[k_on % len(on)]
+                k_on += 1
+            else:
+                cp, t = off[k_off % len(off)]
+                k_off += 1
+            slots.append((cp, t, matrix[i][j]))
+    return matrix, slots
+
+
 def slot_string(cp: int, form: str, fill: int) -> str:
     if form == "whole":
         return chr(cp)
@@ -497,6 +541,10 @@ def eval_case(case: dict) -> dict:
     elif form == "foreign":
         ps = foreign_strings(conv, case.get("more", False))[case["lo"]:case["hi"]]
         cps, strings = [p[0] for p in ps], [p[1] for p in ps]
+    elif form == "cellconv":
+        matrix, ps = cellconv_slots(case["pattern"], fill)
+        cps, strings, flags = [p[0] for p in ps], [p[1] for p in ps], [p[2] for p in ps]
+        conv = matrix  # handed to RTFBody(text_convert=...) as it is
     else:
         cps = case_cps(case)
         strings = [slot_string(cp, form, fill) for cp in cps]
@@ -509,11 +557,17 @@ def eval_case(case: dict) -> dict:
     if n == 0:
         return {"viol": [], "nt": False, "cnt": {"empty-case": 1}}
     where = pos if dtype is None else f"{pos}[{dtype}]"
+    if form == "cellconv":
+        where = f"{pos}[cell-matrix {case['pattern']}]"
+        convtxt = case["pattern"]
+    else:
+        flags = [conv] * n
+        convtxt = conv
     try:
         doc = _write_and_read(build(pos, strings, conv, dtype))
     except Exception as e:
         return {"viol": [{"klass": None, "sig": f"encode-raised-{type(e).__name__}" + ("" if dtype is None else f"-{dtype}"),
-                          "detail": f"{where} conv={conv} U+{cps[0]:04X}..U+{cps[-1]:04X}: {type(e).__name__}: {e}"[:400]}],
+                          "detail": f"{where} conv={convtxt} U+{cps[0]:04X}..U+{cps[-1]:04X}: {type(e).__name__}: {e}"[:400]}],
                 "nt": False, "cnt": {"raised": 1}}
     groups: dict = {}
 
@@ -523,11 +577,11 @@ def eval_case(case: dict) -> dict:
 
     obs, problems = observe(pos, doc, n)
     for sig, detail in problems:
-        add(None, f"structure-{sig}" + ("" if dtype is None else f"-{dtype}"), f"{where} conv={conv}: {detail}")
+        add(None, f"structure-{sig}" + ("" if dtype is None else f"-{dtype}"), f"{where} conv={convtxt}: {detail}")
     avail = Counter((e[0], e[2]) for e in doc.errors)
     cnt = Counter()
     checked = 0
-    for cp, s, o in zip(cps, strings, obs):
+    for cp, s, o, cv in zip(cps, strings, obs, flags):
         if o is None:
             continue
         checked += 1
@@ -544,24 +598,28 @@ def eval_case(case: dict) -> dict:
             cnt[f"intact:{rc}"] += 1
             continue
         if stray and got == s:
-            add(None, f"stray-control-{where}-{rc}", f"{where} conv={conv} form={form}: U+{cp:04X} {s!r} read back with extra events {stray[:3]!r}")
+            add(None, f"stray-control-{where}-{rc}", f"{where} conv={convtxt} form={form}: {'on' if cv else 'off'}-cell U+{cp:04X} {s!r} read back with extra events {stray[:3]!r}")
             continue
         mechs, used = classify(pos, s, got, avail) if not stray else (None, Counter())
         avail.subtract(used)
         if mechs:
             for klass in mechs:
                 cnt[f"known:{klass}"] += 1
-                add(klass, klass, f"{where} conv={conv} form={form}: U+{cp:04X} {s!r} read back as {got!r}")
+                add(klass, klass, f"{where} conv={convtxt} form={form}: {'on' if cv else 'off'}-cell U+{cp:04X} {s!r} read back as {got!r}")
         else:
-            add(None, f"altered-{where}-{rc}" + ("" if conv else "-convoff"),
-                f"{where} conv={conv} form={form}: U+{cp:04X} {s!r} read back as {got!r}" + (f" with events {stray[:3]!r}" if stray else ""))
+            add(None, f"altered-{where}-{rc}" + ("" if cv else "-convoff"),
+                f"{where} conv={convtxt} form={form}: {'on' if cv else 'off'}-cell U+{cp:04X} {s!r} read back as {got!r}" + (f" with events {stray[:3]!r}" if stray else ""))
     for (code, detail), k in sorted(avail.items()):
         if k > 0:
-            add(None, f"reader-error-{code}-{where}", f"{where} conv={conv} form={form} U+{cps[0]:04X}..U+{cps[-1]:04X}: {k}x {code} {detail}")
+            add(None, f"reader-error-{code}-{where}", f"{where} conv={convtxt} form={form} U+{cps[0]:04X}..U+{cps[-1]:04X}: {k}x {code} {detail}")
     viol = [{"klass": k, "sig": sig, "detail": g["detail"] + (f"  [{g['n']} code points in this document]" if g["n"] > 1 else "")}
             for (k, sig), g in groups.items()]
     cnt[f"checked:{where}"] += checked
-    cnt[f"checked:conv={'on' if conv else 'off'}"] += checked
+    if form == "cellconv":
+        cnt["checked:conv=per-cell"] += checked
+        cnt["cellconv:off-cells-with-token-text"] += sum(1 for s_, f_, o_ in zip(strings, flags, obs) if o_ is not None and not f_ and s_ in TOKEN_TEXTS)
+    else:
+        cnt[f"checked:conv={'on' if conv else 'off'}"] += checked
     cnt[f"checked:form={form}"] += checked
     cnt["documents"] += 1
     cnt["code-point-slots"] += checked
@@ -623,7 +681,11 @@ def plan(run):
                 "thorough: additionally all of U+0080-07FF and every 257th code point. both tiers: ASCII text that is escape syntax of another layer "
                 "(XML/HTML character references decimal/hex/named, percent-encoding, quoted-printable, U+ notation, printf/shell/SQL directives, RTF words "
                 f"without backslash: 11 syntaxes x {len(FOREIGN_TARGETS_QUICK)} (quick) / {len(FOREIGN_TARGETS_QUICK) + len(FOREIGN_TARGETS_MORE)} (thorough) target numbers + "
-                f"{len(FOREIGN_FIXED)} fixed strings), alone and mixed with non-ASCII characters ({len(FOREIGN_MIX)} mixes), x 12 positions + 4 non-String dtypes x {{on, off}}. non-trivial = the document contains a code point >= U+0080; distinct = distinct case")
+                f"{len(FOREIGN_FIXED)} fixed strings), alone and mixed with non-ASCII characters ({len(FOREIGN_MIX)} mixes), x 12 positions + 4 non-String dtypes x {{on, off}}; "
+                f"the conversion switch per cell: {len(CELLCONV_PATTERNS)} text_convert matrices (first row on / rest off and the reverse, alternating rows, "
+                f"alternating columns, checkerboard) over a {CELLCONV_ROWS}x{K_BODY + 1} single-segment body - conversion-off cells carry {len(TOKEN_TEXTS)} token-bearing "
+                "texts (^ _ >= <=, also next to non-ASCII) and the boundary code points whole/inner and must read back verbatim, conversion-on cells carry "
+                "the boundary code points of the conversion-on space. non-trivial = the document contains a code point >= U+0080; distinct = distinct case")
     run.assumptions = [
         "reader decoding rules: \\ansi without \\ansicpg = cp1252; \\uN signed 16 bit followed by \\ucN fallback characters; surrogate pairs combined",
         "U+005C, U+007B, U+007D are not in the space (raw RTF pass-through is a documented feature); ^ and _ only with conversion off",
@@ -658,6 +720,10 @@ def plan(run):
         fcases += [{"pos": "body", "dtype": dt, "conv": conv, "form": "foreign", "more": not quick, "lo": 0, "hi": nforeign[conv]}
                    for dt in DTYPES]
     run.layer("foreign-escape-syntax-all-positions", fn, fcases, chunk=3, total=len(fcases))
+
+    # the conversion switch per cell: full text_convert matrices over a single-segment body
+    ccases = [{"pos": "body", "conv": None, "form": "cellconv", "pattern": pat, "fill": fl} for pat in CELLCONV_PATTERNS for fl in fills]
+    run.layer("per-cell-conversion-matrices-body", fn, ccases, chunk=1, total=len(ccases))
 
     # body cells from columns that are not of dtype String (their display text is str(value))
     if quick:
@@ -704,6 +770,8 @@ def plan(run):
     if all(l["completed"] for l in run.layers) and got != exp_body and not run.viol:
         run.harness_errors.append({"layer": "accounting", "case": None,
                                    "error": f"body slots checked {got}, expected {exp_body}"})
+    if all(l["completed"] for l in run.layers) and not run.viol and not run.cnt.get("cellconv:off-cells-with-token-text"):
+        run.harness_errors.append({"layer": "vacuity", "case": None, "error": "no conversion-off cell with a token-bearing text was compared"})
     for dt in DTYPES:
         if all(l["completed"] for l in run.layers) and not run.cnt.get(f"checked:body[{dt}]") and not run.viol:
             run.harness_errors.append({"layer": "vacuity", "case": None, "error": f"no body cell from a {dt} column was compared"})
